@@ -7,16 +7,18 @@ from harness.props import c05
 
 ID = 'C06'
 MODULE = 'Gpv.Props.C06'
-MODULES = ['Gpv.Props.C06', 'Gpv.Props.C06Float']
-THEOREMS = core.theorems('C06', 'C06Float')
+MODULES = ['Gpv.Props.C06', 'Gpv.Props.C06Float', 'Gpv.Props.C06FloatVar']
+THEOREMS = core.theorems('C06', 'C06Float', 'C06FloatVar')
 RULE = ('random sequence split into 1..6 chunks (empty chunks included), one accumulator per chunk, random binary merge order, '
         'receiver and merged-in accumulator read before and after every merge; model in exact rationals vs implementation floats '
         '(rtol 1e-9); oracle = exact batch statistic of the union + "other unchanged" + counts add; plus every non-mergeable class '
         'merged with its own kind. non-trivial: >= 2 non-empty chunks of unequal size, or an empty operand; distinct by (kind, chunks, order).')
 PARTIAL = ['floating-point bound of the pooled MEAN merge: proved in the standard rounding model (C06Float.mean_merge_float_error: one merge costs at most '
            '((1+u)^3 - 1)*max(|a|,|b|), attained; merged_streams_float_error: 6*(L+1)*u*M; tree_float_error(_lin): a merge tree of depth d over float runs of '
-           'length <= L is within 6*(L+d)*u*M of the exact mean — it grows with the depth, not with the number of chunks). The bounds for the Variance / '
-           'Covariance merges are not proved: float_probe tests them against the exact rational statistic']
+           'length <= L is within 6*(L+d)*u*M of the exact mean — it grows with the depth, not with the number of chunks); of the VARIANCE merge (Chan et al.) too '
+           '(C06FloatVar.var_merge_float_error: relative error at most (1+u)^8 - 1 of the exact merged variance for exact operands, attained; '
+           '_perturbed: operands carrying errors; merged_var_streams_float_error: two Welford float runs merged are within 9u*S/N + 62*N*u*M^2). Merge trees of '
+           'variance accumulators and the Covariance merge are not proved: float_probe tests them against the exact rational statistic']
 ASSUMPTIONS = ['numpy element-wise arithmetic and broadcasting']
 
 REFUSERS = ['RunningMean', 'RunningVariance', 'RunningCovariance', 'ReservoirSampling', 'CDFEstimator',
@@ -305,10 +307,79 @@ def check(ctx):
             oracle(ctx, c, impl)
             oracle_extra(ctx, c, impl)
     refusal_cases(ctx)
+    ephemeral_operand_cases(ctx)
+    complex_merge_cases(ctx)
+
+
+def ephemeral_operand_cases(ctx):
+    """the usual reduction loop `total += partial(chunk)`: every partial result dies right after it was merged in (its memory, and
+    with it its id(), is reused by the next one) — the total is still the statistic of all the data"""
+    A = acclib.accmod()
+    rng = ctx.rng
+    for _ in range(ctx.scale(30, 300)):
+        kind = rng.choice(['counter', 'min', 'max', 'mean', 'var', 'cov'])
+        shape = (2,) if kind == 'cov' else rng.choice([(), (2,), (3,)])
+        nchunks = rng.randint(2, 12)
+        chunks = [c05.gen_values(rng, rng.choice([1, 1, 2, 3, 5]), shape, 'dyadic') for _ in range(nchunks)]
+        cls = getattr(A, acclib.KINDS[kind])
+        total = cls()
+        for ch in chunks:
+            part = cls()
+            for v in ch:
+                part.accumulate(acclib.to_obj(v))
+            total += part
+            del part
+        vals = [v for ch in chunks for v in ch]
+        case = dict(kind=kind, ephemeral_partials=True, chunks=chunks)
+        ctx.case(('ephemeral', kind, str(chunks)), True, sample=case if len(vals) <= 6 else None)
+        ctx.count('ephemeral_operands')
+        flatvals = [acclib.flat(v)[1] for v in vals]
+        mx = max([abs(x) for c in flatvals for x in c] + [Fraction(1)])
+        scale = mx * mx if kind in ('var', 'cov') else mx
+        readout = acclib.read_impl(kind, total)
+        if len(vals) >= 2 or kind not in ('var', 'cov'):
+            c05.oracle_check(ctx, kind, vals if kind != 'counter' else [0] * len(vals), readout, case, scale)
+
+
+def complex_merge_cases(ctx):
+    """the merge identity is one of field arithmetic: it holds for complex observations as it does for real ones (the two
+    accumulators compared are both the implementation's: one fed everything, one merged from chunks)"""
+    A = acclib.accmod()
+    rng = ctx.rng
+    for _ in range(ctx.scale(12, 100)):
+        kind = rng.choice(['mean', 'cov', 'var'])
+        d = 2
+        chunks = [[np.array([complex(rng.randint(-8, 8) / 4, rng.randint(-8, 8) / 4) for _ in range(d)]) for _ in range(rng.choice([1, 2, 4]))]
+                  for _ in range(rng.randint(2, 4))]
+        cls = getattr(A, acclib.KINDS[kind])
+        whole, total = cls(), cls()
+        for ch in chunks:
+            part = cls()
+            for v in ch:
+                part.accumulate(v)
+                whole.accumulate(v)
+            total.accumulate(part)
+        case = dict(kind=kind, complex_observations=True, chunks=[[[str(z) for z in v] for v in ch] for ch in chunks])
+        ctx.case(('complex', kind, str(case['chunks'])), True, sample=case)
+        ctx.count('complex_merges')
+        try:
+            a, b = np.asarray(total.value), np.asarray(whole.value)
+            same = total.n == whole.n and a.shape == b.shape and np.allclose(a, b, rtol=1e-9, atol=1e-12)
+        except ZeroDivisionError:
+            same = total.n == whole.n
+        if not same:
+            ctx.fail('merge-differs-from-single-run:complex:' + kind, 'complex observations: merged %s, single accumulator %s' % (
+                np.asarray(total.value).ravel()[:4], np.asarray(whole.value).ravel()[:4]), case)
 
 
 def replay(ctx, data):
     case = data['case']
+    if case.get('complex_observations'):
+        complex_merge_cases(ctx)
+        return
+    if case.get('ephemeral_partials'):
+        ephemeral_operand_cases(ctx)
+        return
     if 'refuse' in case:
         refusal_cases(ctx)
         return
